@@ -89,6 +89,15 @@ CHECKS["C12"] = dict(
     engine="tlc+replay",
 )
 
+CHECKS["C16"] = dict(
+    category="model_checking",
+    text="Include.tla models include resolution relative to the including file, flattening, and the writer's reproduction of directives from the per-element include attribution; TLC checks for every generated shape that the written main file reloads to the flattened element sequence (and finds the expected violation of the pinned 'innermost file' attribution for nested includes). All 360 shape variants (8 shapes x placement of every include file x quoted/unquoted x separator), 12 variants of an include inside the A2ML block and 10 fault cases are materialised as directory trees and run through the real library: load equals load of the flattened text, the written main file has exactly the ideal directives and reloads equal, merge_includes gives a self-contained equal output, faults give an error naming the file (each fault in its own process with time and memory limits).",
+    design_ref="DESIGN.md §4.8, §6 C16",
+    note="Documents of three module-level elements; include files hold whole elements (splits at element boundaries); 'unreadable' realised as a directory. Trusts TLC and the 150-line tree materialiser in tools/checks/c16.py.",
+    technique="TLA+ spec (Include.tla) model-checked with TLC; TLC-generated include trees materialised on disk and executed on the real load/write/merge_includes",
+    engine="tlc+replay",
+)
+
 PENDING = "check not built yet in this round; planned per DESIGN.md §6 (no claim made until the TLA+ module and its binding exist)"
 NOT_APPLICABLE = {}
 
